@@ -10,7 +10,7 @@ formula over the symbolic inputs.
 
 from __future__ import annotations
 
-from pv.corpus.templates import BY_NAME, TEMPLATES
+from pv.corpus.templates import BY_NAME, TEMPLATES, generated
 from pv.props.c01 import _fn_holder, _observe
 
 PROPERTY = "C02"
@@ -142,8 +142,9 @@ def cases(tier, seed):
     th = tier == "thorough"
     L = 4 if th else 3
     cs = []
-    for t in TEMPLATES:
-        for i, v in enumerate(t["vars"]):
+    gens = generated(seed, 40 if th else 8)
+    for t in TEMPLATES + gens:
+        for i, v in enumerate(t["vars"] if (th or not t.get("generated")) else t["vars"][:4]):
             others = [c for c in t["ctx"] if c != v]
             ctxsets = [[]] if (i == 0 or th) else []
             ctxsets += [[c] for c in (others if th else others[:1])]
